@@ -73,7 +73,7 @@ def sized_cfg(ops, nslots, nblocks, maxframes, hows, emit=True, view="CanonView"
         "CHECK_DEADLOCK FALSE", ""])
 
 
-def graph_replay(prop, tier, name, family, root, modules, cfg_text, nslots, harness_cfg="a", tlc_timeout=3000, simulate=None):
+def graph_replay(prop, tier, name, family, root, modules, cfg_text, nslots, harness_cfg="a", tlc_timeout=3000, simulate=None, scale=1):
     """TLC explores the handle-level specification exhaustively (invariants + action properties) and
     exports one concrete behaviour per transition; every behaviour is replayed into the real crate and
     the implementation's observable state compared with the specification's projection."""
@@ -96,6 +96,8 @@ def graph_replay(prop, tier, name, family, root, modules, cfg_text, nslots, harn
     res = {"name": name, "states": st["distinct"], "transitions": st["generated"], "tlc": st,
            "evaluations": 0, "nontrivial": 0, "traces": 0, "samples": [], "violations": [], "notes": [],
            "exhaustive": not simulate}
+    if scale != 1:
+        res["notes"].append("every slice slot of the specification stands for %d consecutive slots of the implementation" % scale)
     if not st["ok"]:
         raise ToolError("TLC did not complete on %s (%s): the specification itself is inconsistent or TLC failed; "
                         "see %s" % (name, st["error"], out))
@@ -106,7 +108,9 @@ def graph_replay(prop, tier, name, family, root, modules, cfg_text, nslots, harn
             os.remove(p)
     t0 = time.time()
     cats = ",".join(sorted(RELEVANT.get(prop, {"*"}))) or "*"
+    # scale: every slice slot of the specification stands for `scale` consecutive slots of the implementation
     r = subprocess.run([exe, "replay", family, out, str(nslots), prog, summ, "40", cats], cwd=wd,
+                       env=dict(os.environ, TVH_LEN_SCALE=str(scale)),
                        stdout=subprocess.PIPE, stderr=subprocess.STDOUT, text=True, timeout=3600)
     res["replay_wall_s"] = round(time.time() - t0, 1)
     if r.returncode not in (0, 1) or not os.path.exists(summ):
@@ -128,9 +132,9 @@ def graph_replay(prop, tier, name, family, root, modules, cfg_text, nslots, harn
                     continue
                 rel, other, tool = split_errors(prop, v["errors"])
                 if rel:
-                    res["violations"].append({"stage": name, "family": family, "nslots": nslots, "h": v["h"], "x": v["x"], "errors": rel})
+                    res["violations"].append({"stage": name, "family": family, "nslots": nslots, "scale": scale, "h": v["h"], "x": v["x"], "errors": rel})
         beh = nth_behaviour(out, line_no)
-        res["violations"].append({"stage": name, "family": family, "nslots": nslots, "h": beh["h"], "x": beh["x"],
+        res["violations"].append({"stage": name, "family": family, "nslots": nslots, "scale": scale, "h": beh["h"], "x": beh["x"],
                                   "errors": ["[crash] the process died (exit %s) while replaying this behaviour (or as a late effect of an earlier one)" % r.returncode]})
         res["evaluations"] = line_no
         return res
@@ -146,7 +150,7 @@ def graph_replay(prop, tier, name, family, root, modules, cfg_text, nslots, harn
         if tool:
             raise ToolError("harness reported an internal error on %s: %s" % (name, tool[:3]))
         if rel:
-            res["violations"].append({"stage": name, "family": family, "nslots": nslots, "h": v["h"], "x": v["x"], "errors": rel,
+            res["violations"].append({"stage": name, "family": family, "nslots": nslots, "scale": scale, "h": v["h"], "x": v["x"], "errors": rel,
                                       "other": other})
         elif other:
             hint = sorted({OWNER_HINT.get(e[1:e.index("]")], "?") for e in other})
@@ -178,7 +182,7 @@ def replay_graph_violation(prop, v):
         f.write("<<\"BEH\", \"%s\">>\n" % body)
     summ = os.path.join(wd, "single.json")
     r = subprocess.run([exe, "replay", v["family"], p, str(v["nslots"]), os.path.join(wd, "single.progress"), summ, "5"],
-                       cwd=wd, stdout=subprocess.PIPE, stderr=subprocess.STDOUT, text=True)
+                       cwd=wd, env=dict(os.environ, TVH_LEN_SCALE=str(v.get("scale", 1))), stdout=subprocess.PIPE, stderr=subprocess.STDOUT, text=True)
     if r.returncode not in (0, 1):
         return ["[crash] exit %s" % r.returncode]
     s = json.load(open(summ))
